@@ -134,11 +134,570 @@ theorem eProd_receiver_stays_erroneous (s : St α) (a b c : Nat) (h : (eGet env 
     have : a = c := by simpa using hac
     exact this ▸ h
 
-/-- C17-1 summary: for every covered element operation the returned object carries an error whose status
-    (hence kind) is that of one of its erroneous operands. -/
-theorem sticky_elements (l : List Err) (h : ∃ e ∈ l, e.isErr = true) :
+/-- `firstErr` picks the error status of one of the erroneous entries -/
+theorem firstErr_is_operand_error (l : List Err) (h : ∃ e ∈ l, e.isErr = true) :
     (firstErr l).isErr = true ∧ ∃ e ∈ l, e.isErr = true ∧ firstErr l = e :=
   let ⟨hm, he⟩ := firstErr_mem h
   ⟨he, _, hm, he, rfl⟩
+
+/-! ### C17-2 : univariate polynomials -/
+
+/-- `Plus`, `Minus`, `Times`: the polynomial stored in `dst` IS the first erroneous operand
+    (receiver, then argument) — in particular it carries that operand's error status. No guard. -/
+theorem sticky_uBin (s : St α) (dst : Nat) (op : String) (a b : Nat)
+    (h : (uGet env s a).err.isErr = true ∨ (uGet env s b).err.isErr = true) :
+    ∃ r : UReg α,
+      step env desc s (.uBin dst op a b) = ({ s with us := St.setL s.us dst r }, "ok " ++ showU env r) ∧
+      r = (if (uGet env s a).err.isErr then uGet env s a else uGet env s b) ∧
+      r.err = firstErr [(uGet env s a).err, (uGet env s b).err] ∧ r.err.isErr = true := by
+  refine ⟨_, step_uBin env desc s dst op a b, ?_⟩
+  unfold uBinRes
+  by_cases ha : (uGet env s a).err.isErr = true
+  · by_cases hop : (op == "times") = true
+    · simp [hop, uTimes_recvErr env _ _ ha, firstErr, ha]
+    · simp [hop, uInPlace_recvErr env _ _ _ ha, firstErr, ha]
+  · have hb := h.resolve_left ha
+    have ha' : (uGet env s a).err.isErr = false := by simpa using ha
+    by_cases hop : (op == "times") = true
+    · simp [hop, uTimes_argErr env _ _ ha' hb, firstErr, ha', hb]
+    · simp [hop, uInPlace_argErr env _ _ _ ha' hb, firstErr, ha', hb]
+
+/-- `Neg`, `Normalize`, `Copy` keep the operand's error status. The guard excludes `lt`
+    (every other operation name behaves as `lt` in the model). -/
+theorem sticky_uUn (s : St α) (dst : Nat) (op : String) (a : Nat)
+    (hop : op = "copy" ∨ op = "neg" ∨ op = "normalize") :
+    ∃ r : UReg α,
+      step env desc s (.uUn dst op a) = ({ s with us := St.setL s.us dst r }, "ok " ++ showU env r) ∧
+      r.err = (uGet env s a).err := by
+  refine ⟨_, step_uUn env desc s dst op a, ?_⟩
+  rcases hop with rfl | rfl | rfl <;> simp [uUnRes]
+
+/-- EXCEPTION (visible on purpose): `Lt()` returns a fresh, error-free term even when the polynomial
+    carries an error. -/
+theorem lt_drops_error (s : St α) (dst a : Nat) :
+    ∃ r : UReg α,
+      step env desc s (.uUn dst "lt" a) = ({ s with us := St.setL s.us dst r }, "ok " ++ showU env r) ∧
+      r.err = Err.none := by
+  refine ⟨_, step_uUn env desc s dst "lt" a, ?_⟩
+  simp [uUnRes]
+
+/-- `Scale(c)`: the polynomial's error status is kept … -/
+theorem sticky_uScale (s : St α) (dst a e : Nat) :
+    ∃ r : UReg α,
+      step env desc s (.uScale dst a e) = ({ s with us := St.setL s.us dst r }, "ok " ++ showU env r) ∧
+      r.err = (uGet env s a).err :=
+  ⟨_, step_uScale env desc s dst a e, uScaleRes_err env s a e⟩
+
+/-- `Pow`: the result is the erroneous polynomial itself. -/
+theorem sticky_uPow (s : St α) (dst a n : Nat) (h : (uGet env s a).err.isErr = true) :
+    ∃ r : UReg α,
+      step env desc s (.uPow dst a n) = ({ s with us := St.setL s.us dst r }, "ok " ++ showU env r) ∧
+      r = uGet env s a := by
+  refine ⟨_, step_uPow env desc s dst a n, ?_⟩
+  simp only [uPowRes, h, if_true, UReg.with_err_self _ h]
+
+/-- In-place `Add`, `Sub`, `Mult`: the returned polynomial IS the first erroneous operand.
+    For `add`/`sub` an erroneous *argument* is returned as another object and the receiver register is left
+    alone; for `mult` (`*f = *f.multNoReduce(g)`) the receiver register is overwritten by it. -/
+theorem sticky_uIn (s : St α) (op : String) (a b : Nat)
+    (h : (uGet env s a).err.isErr = true ∨ (uGet env s b).err.isErr = true) :
+    ∃ (ra' r : UReg α) (isRecv : Bool),
+      step env desc s (.uIn op a b) = ({ s with us := St.setL s.us a ra' }, ret isRecv (showU env r)) ∧
+      r = (if (uGet env s a).err.isErr then uGet env s a else uGet env s b) ∧
+      r.err = firstErr [(uGet env s a).err, (uGet env s b).err] ∧ r.err.isErr = true ∧
+      (if isRecv then ra' = r else ra' = uGet env s a) ∧
+      (isRecv = ((op == "mult") || (uGet env s a).err.isErr)) := by
+  refine ⟨_, _, _, step_uIn env desc s op a b, ?_⟩
+  unfold uInRes
+  by_cases ha : (uGet env s a).err.isErr = true
+  · by_cases hop : (op == "mult") = true
+    · simp [hop, uTimes_recvErr env _ _ ha, firstErr, ha]
+    · simp [hop, uInPlace_recvErr env _ _ _ ha, firstErr, ha]
+  · have hb := h.resolve_left ha
+    have ha' : (uGet env s a).err.isErr = false := by simpa using ha
+    by_cases hop : (op == "mult") = true
+    · simp [hop, uTimes_argErr env _ _ ha' hb, firstErr, ha', hb]
+    · simp [hop, uInPlace_argErr env _ _ _ ha' hb, firstErr, ha', hb]
+
+/-- `SetNeg`, `SetScale`, `SetCoef`/`IncCoef`/`DecCoef`, `SetZero` keep the receiver's error status. -/
+theorem sticky_uSet (s : St α) (op : Op)
+    (hop : (∃ a, op = .uSetNeg a) ∨ (∃ a e, op = .uSetScale a e) ∨ (∃ o a d e, op = .uSetCoef o a d e) ∨
+           (∃ a, op = .uSetZero a)) :
+    ∃ (a : Nat) (r : UReg α), op.writesU = [a] ∧
+      step env desc s op = ({ s with us := St.setL s.us a r }, "recv " ++ showU env r) ∧
+      r.err = (uGet env s a).err := by
+  rcases hop with ⟨a, rfl⟩ | ⟨a, e, rfl⟩ | ⟨o, a, d, e, rfl⟩ | ⟨a, rfl⟩
+  · exact ⟨a, _, rfl, step_uSetNeg env desc s a, rfl⟩
+  · exact ⟨a, _, rfl, step_uSetScale env desc s a e, uScaleRes_err env s a e⟩
+  · exact ⟨a, _, rfl, step_uSetCoef env desc s o a d e, rfl⟩
+  · exact ⟨a, _, rfl, step_uSetZero env desc s a, rfl⟩
+
+/-! ### C17-2 : bivariate polynomials -/
+
+theorem sticky_bBin (s : St α) (dst : Nat) (op : String) (a b : Nat)
+    (h : (bGet s a).err.isErr = true ∨ (bGet s b).err.isErr = true) :
+    ∃ r : BReg α,
+      step env desc s (.bBin dst op a b) = ({ s with bs := St.setL s.bs dst r }, "ok " ++ showB env r) ∧
+      r = (if (bGet s a).err.isErr then bGet s a else bGet s b) ∧
+      r.err = firstErr [(bGet s a).err, (bGet s b).err] ∧ r.err.isErr = true := by
+  refine ⟨_, step_bBin env desc s dst op a b, ?_⟩
+  unfold bBinRes
+  by_cases ha : (bGet s a).err.isErr = true
+  · by_cases hop : (op == "times") = true
+    · simp [hop, bTimes_recvErr env _ _ ha, firstErr, ha]
+    · simp [hop, bInPlace_recvErr env _ _ _ ha, firstErr, ha]
+  · have hb := h.resolve_left ha
+    have ha' : (bGet s a).err.isErr = false := by simpa using ha
+    by_cases hop : (op == "times") = true
+    · simp [hop, bTimes_argErr env _ _ ha' hb, firstErr, ha', hb]
+    · simp [hop, bInPlace_argErr env _ _ _ ha' hb, firstErr, ha', hb]
+
+/-- bivariate `Neg`, `Normalize`, `Copy` keep the error status (the model's `neg` does so since the
+    "bUn neg keeps the error" revision). -/
+theorem sticky_bUn (s : St α) (dst : Nat) (op : String) (a : Nat)
+    (hop : op = "copy" ∨ op = "neg" ∨ op = "normalize") :
+    ∃ r : BReg α,
+      step env desc s (.bUn dst op a) = ({ s with bs := St.setL s.bs dst r }, "ok " ++ showB env r) ∧
+      r.err = (bGet s a).err := by
+  refine ⟨_, step_bUn env desc s dst op a, ?_⟩
+  rcases hop with rfl | rfl | rfl <;> simp [bUnRes]
+
+/-- EXCEPTION: bivariate `Lt()` returns a fresh error-free term. -/
+theorem lt_drops_error_b (s : St α) (dst a : Nat) :
+    ∃ r : BReg α,
+      step env desc s (.bUn dst "lt" a) = ({ s with bs := St.setL s.bs dst r }, "ok " ++ showB env r) ∧
+      r.err = Err.none := by
+  refine ⟨_, step_bUn env desc s dst "lt" a, ?_⟩
+  simp [bUnRes]
+
+theorem sticky_bScale (s : St α) (dst a e : Nat) :
+    ∃ r : BReg α,
+      step env desc s (.bScale dst a e) = ({ s with bs := St.setL s.bs dst r }, "ok " ++ showB env r) ∧
+      r.err = (bGet s a).err :=
+  ⟨_, step_bScale env desc s dst a e, bScaleRes_err env s a e⟩
+
+theorem sticky_bPow (s : St α) (dst a n : Nat) (h : (bGet s a).err.isErr = true) :
+    ∃ r : BReg α,
+      step env desc s (.bPow dst a n) = ({ s with bs := St.setL s.bs dst r }, "ok " ++ showB env r) ∧
+      r = bGet s a := by
+  refine ⟨_, step_bPow env desc s dst a n, ?_⟩
+  simp only [bPowRes, h, if_true, BReg.with_err_self _ h]
+
+theorem sticky_bIn (s : St α) (op : String) (a b : Nat)
+    (h : (bGet s a).err.isErr = true ∨ (bGet s b).err.isErr = true) :
+    ∃ (ra' r : BReg α) (isRecv : Bool),
+      step env desc s (.bIn op a b) = ({ s with bs := St.setL s.bs a ra' }, ret isRecv (showB env r)) ∧
+      r = (if (bGet s a).err.isErr then bGet s a else bGet s b) ∧
+      r.err = firstErr [(bGet s a).err, (bGet s b).err] ∧ r.err.isErr = true ∧
+      (if isRecv then ra' = r else ra' = bGet s a) ∧
+      (isRecv = ((op == "mult") || (bGet s a).err.isErr)) := by
+  refine ⟨_, _, _, step_bIn env desc s op a b, ?_⟩
+  unfold bInRes
+  by_cases ha : (bGet s a).err.isErr = true
+  · by_cases hop : (op == "mult") = true
+    · simp [hop, bTimes_recvErr env _ _ ha, firstErr, ha]
+    · simp [hop, bInPlace_recvErr env _ _ _ ha, firstErr, ha]
+  · have hb := h.resolve_left ha
+    have ha' : (bGet s a).err.isErr = false := by simpa using ha
+    by_cases hop : (op == "mult") = true
+    · simp [hop, bTimes_argErr env _ _ ha' hb, firstErr, ha', hb]
+    · simp [hop, bInPlace_argErr env _ _ _ ha' hb, firstErr, ha', hb]
+
+theorem sticky_bSet (s : St α) (op : Op)
+    (hop : (∃ a e, op = .bSetScale a e) ∨ (∃ o a d e, op = .bSetCoef o a d e)) :
+    ∃ (a : Nat) (r : BReg α), op.writesB = [a] ∧
+      step env desc s op = ({ s with bs := St.setL s.bs a r }, "recv " ++ showB env r) ∧
+      r.err = (bGet s a).err := by
+  rcases hop with ⟨a, e, rfl⟩ | ⟨o, a, d, e, rfl⟩
+  · exact ⟨a, _, rfl, step_bSetScale env desc s a e, bSetScaleRes_err env s a e⟩
+  · exact ⟨a, _, rfl, step_bSetCoef env desc s o a d e, rfl⟩
+
+/-! ### C17-3 : taint along histories -/
+
+/-- two-element version of `firstErr_mem` -/
+private theorem firstErr_pair {e1 e2 : Err} (h : e1.isErr = true ∨ e2.isErr = true) :
+    (e1.isErr = true ∧ firstErr [e1, e2] = e1) ∨ (e2.isErr = true ∧ firstErr [e1, e2] = e2) := by
+  by_cases h1 : e1.isErr = true
+  · exact .inl ⟨h1, by simp [firstErr, h1]⟩
+  · have h2 := h.resolve_left h1
+    exact .inr ⟨h2, by simp [firstErr, h1, h2]⟩
+
+/-- Every covered value-returning element operation (`eBin`, `eUn`, `ePow` under the guard
+    `Op.propagatesE`: an erroneous, non-foreign operand) stores in its destination an erroneous object
+    whose error status is that of one of the operands it consulted. -/
+theorem taint_step_E (s : St α) (op : Op) (h : op.propagatesE env s) :
+    ∃ r, St.getL (step env desc s op).1.es op.dst = some r ∧ r.err.isErr = true ∧
+      ∃ k' ∈ op.readsE, (eGet env s k').err.isErr = true ∧ r.err = (eGet env s k').err := by
+  cases op <;> try (exact h.elim)
+  case eBin dst op a b =>
+    obtain ⟨hfa, hfb, herr⟩ := h
+    obtain ⟨r, hs, he, hi⟩ := sticky_eBin env desc s dst op a b hfa hfb herr
+    refine ⟨r, by rw [hs]; exact St.getL_setL_same _ _ _, hi, ?_⟩
+    rcases firstErr_pair herr with ⟨h1, h2⟩ | ⟨h1, h2⟩
+    · exact ⟨a, by simp [Op.readsE], h1, he.trans h2⟩
+    · exact ⟨b, by simp [Op.readsE], h1, he.trans h2⟩
+  case eUn dst op a =>
+    obtain ⟨r, hs, he, hi⟩ := sticky_eUn env desc s dst op a h
+    exact ⟨r, by rw [hs]; exact St.getL_setL_same _ _ _, hi, a, by simp [Op.readsE], h, he⟩
+  case ePow dst a n =>
+    obtain ⟨r, hs, he, hi⟩ := sticky_ePow env desc s dst a n h
+    exact ⟨r, by rw [hs]; exact St.getL_setL_same _ _ _, hi, a, by simp [Op.readsE], h, by rw [he]⟩
+
+theorem taint_step_U (s : St α) (op : Op) (h : op.propagatesU env s) :
+    ∃ r, St.getL (step env desc s op).1.us op.dst = some r ∧ r.err.isErr = true ∧
+      ∃ k' ∈ op.readsU, (uGet env s k').err.isErr = true ∧ r.err = (uGet env s k').err := by
+  cases op <;> try (exact h.elim)
+  case uBin dst op a b =>
+    obtain ⟨r, hs, _, he, hi⟩ := sticky_uBin env desc s dst op a b h
+    refine ⟨r, by rw [hs]; exact St.getL_setL_same _ _ _, hi, ?_⟩
+    rcases firstErr_pair h with ⟨h1, h2⟩ | ⟨h1, h2⟩
+    · exact ⟨a, by simp [Op.readsU], h1, he.trans h2⟩
+    · exact ⟨b, by simp [Op.readsU], h1, he.trans h2⟩
+  case uUn dst op a =>
+    obtain ⟨r, hs, he⟩ := sticky_uUn env desc s dst op a h.1
+    exact ⟨r, by rw [hs]; exact St.getL_setL_same _ _ _, he ▸ h.2, a, by simp [Op.readsU], h.2, he⟩
+  case uScale dst a e =>
+    obtain ⟨r, hs, he⟩ := sticky_uScale env desc s dst a e
+    exact ⟨r, by rw [hs]; exact St.getL_setL_same _ _ _, he ▸ h, a, by simp [Op.readsU], h, he⟩
+  case uPow dst a n =>
+    obtain ⟨r, hs, he⟩ := sticky_uPow env desc s dst a n h
+    exact ⟨r, by rw [hs]; exact St.getL_setL_same _ _ _, he ▸ h, a, by simp [Op.readsU], h, by rw [he]⟩
+
+theorem taint_step_B (s : St α) (op : Op) (h : op.propagatesB s) :
+    ∃ r, St.getL (step env desc s op).1.bs op.dst = some r ∧ r.err.isErr = true ∧
+      ∃ k' ∈ op.readsB, (bGet s k').err.isErr = true ∧ r.err = (bGet s k').err := by
+  cases op <;> try (exact h.elim)
+  case bBin dst op a b =>
+    obtain ⟨r, hs, _, he, hi⟩ := sticky_bBin env desc s dst op a b h
+    refine ⟨r, by rw [hs]; exact St.getL_setL_same _ _ _, hi, ?_⟩
+    rcases firstErr_pair h with ⟨h1, h2⟩ | ⟨h1, h2⟩
+    · exact ⟨a, by simp [Op.readsB], h1, he.trans h2⟩
+    · exact ⟨b, by simp [Op.readsB], h1, he.trans h2⟩
+  case bUn dst op a =>
+    obtain ⟨r, hs, he⟩ := sticky_bUn env desc s dst op a h.1
+    exact ⟨r, by rw [hs]; exact St.getL_setL_same _ _ _, he ▸ h.2, a, by simp [Op.readsB], h.2, he⟩
+  case bScale dst a e =>
+    obtain ⟨r, hs, he⟩ := sticky_bScale env desc s dst a e
+    exact ⟨r, by rw [hs]; exact St.getL_setL_same _ _ _, he ▸ h, a, by simp [Op.readsB], h, he⟩
+  case bPow dst a n =>
+    obtain ⟨r, hs, he⟩ := sticky_bPow env desc s dst a n h
+    exact ⟨r, by rw [hs]; exact St.getL_setL_same _ _ _, he ▸ h, a, by simp [Op.readsB], h, by rw [he]⟩
+
+/-! ### C17-1 / C17-2 umbrella statements -/
+
+private theorem pre_ok : "ok " ∈ ["ok ", "recv ", "other "] := by simp
+private theorem pre_ret (b : Bool) : (if b then "recv " else "other ") ∈ ["ok ", "recv ", "other "] := by
+  cases b <;> simp
+
+/-- C17-1 (`sticky_elements`). For `eBin` (plus minus times), `eUn` (neg inv copy trace), `ePow`, `eIn`
+    (add sub mult), `eProd` under the guard `Op.stickyE` (a consulted operand — `Op.readsE`, in checking
+    order; for `prod a b c` these are `b`, `c`, not the receiver — is erroneous, none is foreign): the
+    object the operation returns (the one shown in the reply) carries an error, and its error status,
+    hence its kind, is that of an erroneous consulted operand. -/
+theorem sticky_elements (s : St α) (op : Op) (h : op.stickyE env s) :
+    ∃ (r : EReg α) (pre : String), (step env desc s op).2 = pre ++ showE env r ∧
+      pre ∈ ["ok ", "recv ", "other "] ∧ r.err.isErr = true ∧
+      ∃ k' ∈ op.readsE, (eGet env s k').err.isErr = true ∧ r.err = (eGet env s k').err := by
+  cases op <;> try (exact h.elim)
+  case eBin dst op a b =>
+    obtain ⟨hfa, hfb, herr⟩ := h
+    obtain ⟨r, hs, he, hi⟩ := sticky_eBin env desc s dst op a b hfa hfb herr
+    refine ⟨r, "ok ", by rw [hs], pre_ok, hi, ?_⟩
+    rcases firstErr_pair herr with ⟨h1, h2⟩ | ⟨h1, h2⟩
+    · exact ⟨a, by simp [Op.readsE], h1, he.trans h2⟩
+    · exact ⟨b, by simp [Op.readsE], h1, he.trans h2⟩
+  case eUn dst op a =>
+    obtain ⟨r, hs, he, hi⟩ := sticky_eUn env desc s dst op a h
+    exact ⟨r, "ok ", by rw [hs], pre_ok, hi, a, by simp [Op.readsE], h, he⟩
+  case ePow dst a n =>
+    obtain ⟨r, hs, he, hi⟩ := sticky_ePow env desc s dst a n h
+    exact ⟨r, "ok ", by rw [hs], pre_ok, hi, a, by simp [Op.readsE], h, by rw [he]⟩
+  case eIn op a b =>
+    obtain ⟨hfa, hfb, herr⟩ := h
+    obtain ⟨ra', r, isRecv, hs, he, hi, _⟩ := sticky_eIn env desc s op a b hfa hfb herr
+    refine ⟨r, _, by rw [hs, ret_eq], pre_ret isRecv, hi, ?_⟩
+    rcases firstErr_pair herr with ⟨h1, h2⟩ | ⟨h1, h2⟩
+    · exact ⟨a, by simp [Op.readsE], h1, he.trans h2⟩
+    · exact ⟨b, by simp [Op.readsE], h1, he.trans h2⟩
+  case eProd a b c =>
+    obtain ⟨hfb, hfc, herr⟩ := h
+    obtain ⟨ra', r, isRecv, hs, he, hi, _⟩ := sticky_eProd env desc s a b c hfb hfc herr
+    refine ⟨r, _, by rw [hs, ret_eq], pre_ret isRecv, hi, ?_⟩
+    rcases firstErr_pair herr with ⟨h1, h2⟩ | ⟨h1, h2⟩
+    · exact ⟨b, by simp [Op.readsE], h1, he.trans h2⟩
+    · exact ⟨c, by simp [Op.readsE], h1, he.trans h2⟩
+
+/-- C17-2 (`sticky_upoly`). For `uBin`, `uUn` (copy neg normalize — NOT `lt`, see `lt_drops_error`),
+    `uScale`, `uPow`, `uIn` with an erroneous consulted polynomial operand: the returned polynomial carries
+    an error whose status is that of an erroneous consulted operand. No foreign-ness guard exists for
+    polynomials; the scalar of `uScale` is not consulted (see `scalar_error_is_dropped`). -/
+theorem sticky_upoly (s : St α) (op : Op) (h : op.stickyU env s) :
+    ∃ (r : UReg α) (pre : String), (step env desc s op).2 = pre ++ showU env r ∧
+      pre ∈ ["ok ", "recv ", "other "] ∧ r.err.isErr = true ∧
+      ∃ k' ∈ op.readsU, (uGet env s k').err.isErr = true ∧ r.err = (uGet env s k').err := by
+  cases op <;> try (exact h.elim)
+  case uBin dst op a b =>
+    obtain ⟨r, hs, _, he, hi⟩ := sticky_uBin env desc s dst op a b h
+    refine ⟨r, "ok ", by rw [hs], pre_ok, hi, ?_⟩
+    rcases firstErr_pair h with ⟨h1, h2⟩ | ⟨h1, h2⟩
+    · exact ⟨a, by simp [Op.readsU], h1, he.trans h2⟩
+    · exact ⟨b, by simp [Op.readsU], h1, he.trans h2⟩
+  case uUn dst op a =>
+    obtain ⟨r, hs, he⟩ := sticky_uUn env desc s dst op a h.1
+    exact ⟨r, "ok ", by rw [hs], pre_ok, he ▸ h.2, a, by simp [Op.readsU], h.2, he⟩
+  case uScale dst a e =>
+    obtain ⟨r, hs, he⟩ := sticky_uScale env desc s dst a e
+    exact ⟨r, "ok ", by rw [hs], pre_ok, he ▸ h, a, by simp [Op.readsU], h, he⟩
+  case uPow dst a n =>
+    obtain ⟨r, hs, he⟩ := sticky_uPow env desc s dst a n h
+    exact ⟨r, "ok ", by rw [hs], pre_ok, he ▸ h, a, by simp [Op.readsU], h, by rw [he]⟩
+  case uIn op a b =>
+    obtain ⟨ra', r, isRecv, hs, _, he, hi, _⟩ := sticky_uIn env desc s op a b h
+    refine ⟨r, _, by rw [hs, ret_eq], pre_ret isRecv, hi, ?_⟩
+    rcases firstErr_pair h with ⟨h1, h2⟩ | ⟨h1, h2⟩
+    · exact ⟨a, by simp [Op.readsU], h1, he.trans h2⟩
+    · exact ⟨b, by simp [Op.readsU], h1, he.trans h2⟩
+
+/-- C17-2 (`sticky_bpoly`): the bivariate analogue (`bBin`, `bUn` copy/neg/normalize, `bScale`, `bPow`, `bIn`). -/
+theorem sticky_bpoly (s : St α) (op : Op) (h : op.stickyB s) :
+    ∃ (r : BReg α) (pre : String), (step env desc s op).2 = pre ++ showB env r ∧
+      pre ∈ ["ok ", "recv ", "other "] ∧ r.err.isErr = true ∧
+      ∃ k' ∈ op.readsB, (bGet s k').err.isErr = true ∧ r.err = (bGet s k').err := by
+  cases op <;> try (exact h.elim)
+  case bBin dst op a b =>
+    obtain ⟨r, hs, _, he, hi⟩ := sticky_bBin env desc s dst op a b h
+    refine ⟨r, "ok ", by rw [hs], pre_ok, hi, ?_⟩
+    rcases firstErr_pair h with ⟨h1, h2⟩ | ⟨h1, h2⟩
+    · exact ⟨a, by simp [Op.readsB], h1, he.trans h2⟩
+    · exact ⟨b, by simp [Op.readsB], h1, he.trans h2⟩
+  case bUn dst op a =>
+    obtain ⟨r, hs, he⟩ := sticky_bUn env desc s dst op a h.1
+    exact ⟨r, "ok ", by rw [hs], pre_ok, he ▸ h.2, a, by simp [Op.readsB], h.2, he⟩
+  case bScale dst a e =>
+    obtain ⟨r, hs, he⟩ := sticky_bScale env desc s dst a e
+    exact ⟨r, "ok ", by rw [hs], pre_ok, he ▸ h, a, by simp [Op.readsB], h, he⟩
+  case bPow dst a n =>
+    obtain ⟨r, hs, he⟩ := sticky_bPow env desc s dst a n h
+    exact ⟨r, "ok ", by rw [hs], pre_ok, he ▸ h, a, by simp [Op.readsB], h, by rw [he]⟩
+  case bIn op a b =>
+    obtain ⟨ra', r, isRecv, hs, _, he, hi, _⟩ := sticky_bIn env desc s op a b h
+    refine ⟨r, _, by rw [hs, ret_eq], pre_ret isRecv, hi, ?_⟩
+    rcases firstErr_pair h with ⟨h1, h2⟩ | ⟨h1, h2⟩
+    · exact ⟨a, by simp [Op.readsB], h1, he.trans h2⟩
+    · exact ⟨b, by simp [Op.readsB], h1, he.trans h2⟩
+
+/-- One step keeps register `k` tainted unless `k` is the destination of a value-returning operation that
+    does not itself propagate an error: in-place operations NEVER clear their receiver's error, operations
+    that do not write `k` leave it alone, covered value operations with an erroneous operand re-taint it. -/
+theorem taint_preserved_E (s : St α) (op : Op) (k : Nat) (ht : TaintedE s k)
+    (h : k ∈ op.writesE → op.inPlace = true ∨ op.propagatesE env s) :
+    TaintedE (step env desc s op).1 k := by
+  by_cases hk : k ∈ op.writesE
+  · rcases h hk with hin | hp
+    · exact step_inPlace_taintE env desc s op k hin hk ht
+    · obtain ⟨r, hr, hi, _⟩ := taint_step_E env desc s op hp
+      have : k = op.dst := by
+        cases op <;> first | exact hp.elim | simpa [Op.writesE, Op.dst] using hk
+      exact ⟨r, this ▸ hr, hi⟩
+  · obtain ⟨r, hr, hi⟩ := ht
+    exact ⟨r, by rw [(step_frame' env desc s op).es k hk]; exact hr, hi⟩
+
+theorem taint_preserved_U (s : St α) (op : Op) (k : Nat) (ht : TaintedU s k)
+    (h : k ∈ op.writesU → op.inPlace = true ∨ op.propagatesU env s) :
+    TaintedU (step env desc s op).1 k := by
+  by_cases hk : k ∈ op.writesU
+  · rcases h hk with hin | hp
+    · exact step_inPlace_taintU env desc s op k hin hk ht
+    · obtain ⟨r, hr, hi, _⟩ := taint_step_U env desc s op hp
+      have : k = op.dst := by
+        cases op <;> first | exact hp.elim | simpa [Op.writesU, Op.dst] using hk
+      exact ⟨r, this ▸ hr, hi⟩
+  · obtain ⟨r, hr, hi⟩ := ht
+    exact ⟨r, by rw [(step_frame' env desc s op).us k hk]; exact hr, hi⟩
+
+theorem taint_preserved_B (s : St α) (op : Op) (k : Nat) (ht : TaintedB s k)
+    (h : k ∈ op.writesB → op.inPlace = true ∨ op.propagatesB s) :
+    TaintedB (step env desc s op).1 k := by
+  by_cases hk : k ∈ op.writesB
+  · rcases h hk with hin | hp
+    · exact step_inPlace_taintB env desc s op k hin hk ht
+    · obtain ⟨r, hr, hi, _⟩ := taint_step_B env desc s op hp
+      have : k = op.dst := by
+        cases op <;> first | exact hp.elim | simpa [Op.writesB, Op.dst] using hk
+      exact ⟨r, this ▸ hr, hi⟩
+  · obtain ⟨r, hr, hi⟩ := ht
+    exact ⟨r, by rw [(step_frame' env desc s op).bs k hk]; exact hr, hi⟩
+
+/-- along the history, whenever register `k` is written it is written in place or by an error-propagating
+    covered operation (the guard is evaluated in the store reached at that point) -/
+def SafeE (k : Nat) : St α → List Op → Prop
+  | _, [] => True
+  | s, op :: t => (k ∈ op.writesE → op.inPlace = true ∨ op.propagatesE env s) ∧ SafeE k (step env desc s op).1 t
+def SafeU (k : Nat) : St α → List Op → Prop
+  | _, [] => True
+  | s, op :: t => (k ∈ op.writesU → op.inPlace = true ∨ op.propagatesU env s) ∧ SafeU k (step env desc s op).1 t
+def SafeB (k : Nat) : St α → List Op → Prop
+  | _, [] => True
+  | s, op :: t => (k ∈ op.writesB → op.inPlace = true ∨ op.propagatesB s) ∧ SafeB k (step env desc s op).1 t
+
+/-- C17-3. A tainted register stays tainted along every history that never overwrites it with the result
+    of a value-returning operation on clean operands. -/
+theorem sticky_histories_E (s : St α) (k : Nat) (ops : List Op) (ht : TaintedE s k)
+    (hs : SafeE env desc k s ops) :
+    TaintedE (ops.foldl (fun st op => (step env desc st op).1) s) k := by
+  induction ops generalizing s with
+  | nil => exact ht
+  | cons op t ih => exact ih _ (taint_preserved_E env desc s op k ht hs.1) hs.2
+
+theorem sticky_histories_U (s : St α) (k : Nat) (ops : List Op) (ht : TaintedU s k)
+    (hs : SafeU env desc k s ops) :
+    TaintedU (ops.foldl (fun st op => (step env desc st op).1) s) k := by
+  induction ops generalizing s with
+  | nil => exact ht
+  | cons op t ih => exact ih _ (taint_preserved_U env desc s op k ht hs.1) hs.2
+
+theorem sticky_histories_B (s : St α) (k : Nat) (ops : List Op) (ht : TaintedB s k)
+    (hs : SafeB env desc k s ops) :
+    TaintedB (ops.foldl (fun st op => (step env desc st op).1) s) k := by
+  induction ops generalizing s with
+  | nil => exact ht
+  | cons op t ih => exact ih _ (taint_preserved_B env desc s op k ht hs.1) hs.2
+
+/-- Corollary ("errors stay attached"): if no operation of the history uses `k` as the destination of a
+    value-returning operation — i.e. the object in `k` is only ever read, or modified in place —
+    then it carries an error for ever. Purely syntactic condition on the history. -/
+theorem tainted_forever_E (s : St α) (k : Nat) (ops : List Op) (ht : TaintedE s k)
+    (h : ∀ op ∈ ops, k ∈ op.writesE → op.inPlace = true) :
+    TaintedE (ops.foldl (fun st op => (step env desc st op).1) s) k := by
+  apply sticky_histories_E env desc s k ops ht
+  clear ht
+  induction ops generalizing s with
+  | nil => trivial
+  | cons op t ih =>
+    exact ⟨fun hk => .inl (h op (List.mem_cons_self ..) hk), ih _ (fun o ho => h o (List.mem_cons_of_mem _ ho))⟩
+
+theorem tainted_forever_U (s : St α) (k : Nat) (ops : List Op) (ht : TaintedU s k)
+    (h : ∀ op ∈ ops, k ∈ op.writesU → op.inPlace = true) :
+    TaintedU (ops.foldl (fun st op => (step env desc st op).1) s) k := by
+  apply sticky_histories_U env desc s k ops ht
+  clear ht
+  induction ops generalizing s with
+  | nil => trivial
+  | cons op t ih =>
+    exact ⟨fun hk => .inl (h op (List.mem_cons_self ..) hk), ih _ (fun o ho => h o (List.mem_cons_of_mem _ ho))⟩
+
+theorem tainted_forever_B (s : St α) (k : Nat) (ops : List Op) (ht : TaintedB s k)
+    (h : ∀ op ∈ ops, k ∈ op.writesB → op.inPlace = true) :
+    TaintedB (ops.foldl (fun st op => (step env desc st op).1) s) k := by
+  apply sticky_histories_B env desc s k ops ht
+  clear ht
+  induction ops generalizing s with
+  | nil => trivial
+  | cons op t ih =>
+    exact ⟨fun hk => .inl (h op (List.mem_cons_self ..) hk), ih _ (fun o ho => h o (List.mem_cons_of_mem _ ho))⟩
+
+/-! ### where the model does NOT propagate an error (negative lemmas, listed on purpose) -/
+
+/-- univariate `Eval`, and `Coef`, `Lc` of both packages, applied to a (possibly erroneous) polynomial
+    return a fresh error-free element. (Bivariate `Eval` is different: see `bEval_propagates`.) -/
+theorem poly_to_element_drops_error (s : St α) (op : Op)
+    (hop : (∃ d a e, op = .uEval d a e) ∨ (∃ d a k, op = .uCoef d a k) ∨ (∃ d a, op = .uLc d a) ∨
+           (∃ d a k, op = .bCoef d a k) ∨ (∃ d a, op = .bLc d a)) :
+    ∃ (dst : Nat) (r : EReg α), op.writesE = [dst] ∧
+      step env desc s op = ({ s with es := St.setL s.es dst r }, "ok " ++ showE env r) ∧
+      r.err = Err.none := by
+  rcases hop with ⟨d, a, e, rfl⟩ | ⟨d, a, k, rfl⟩ | ⟨d, a, rfl⟩ | ⟨d, a, k, rfl⟩ | ⟨d, a, rfl⟩ <;>
+    exact ⟨d, _, rfl, rfl, rfl⟩
+
+/-- Bivariate `Eval` is composed of checked value-returning element operations
+    (`out.Plus(coef.Times(x.Pow(i)).Times(y.Pow(j)))`): an erroneous first coordinate taints the result
+    with its own error status whenever the polynomial has a term. -/
+theorem bEval_propagates (s : St α) (dst a x y : Nat) (hne : (bGet s a).val.isEmpty = false)
+    (hx : (eGet env s x).err.isErr = true) :
+    ∃ r : EReg α,
+      step env desc s (.bEval dst a x y) = ({ s with es := St.setL s.es dst r }, "ok " ++ showE env r) ∧
+      r.err = (eGet env s x).err.wrapInherit := by
+  refine ⟨_, rfl, ?_⟩
+  simp [hne, hx, Option.orElse]
+
+/-- …and an erroneous second coordinate does so when the first coordinate is usable. -/
+theorem bEval_propagates_snd (s : St α) (dst a x y : Nat) (hne : (bGet s a).val.isEmpty = false)
+    (hx : (eGet env s x).err.isErr = false) (hx0 : (eGet env s x).home = 0)
+    (hy : (eGet env s y).err.isErr = true) :
+    ∃ r : EReg α,
+      step env desc s (.bEval dst a x y) = ({ s with es := St.setL s.es dst r }, "ok " ++ showE env r) ∧
+      r.err = (eGet env s y).err.wrapInherit := by
+  refine ⟨_, rfl, ?_⟩
+  simp [hne, hx, hx0, hy, Option.orElse]
+
+/-- An erroneous *scalar* does not taint `Scale`/`SetScale`: the result's error status is the polynomial's
+    (recorded finding PF-18). Likewise the element handed to `SetCoef`/`IncCoef`/`DecCoef`. -/
+theorem scalar_error_is_dropped (s : St α) (dst a e : Nat) (hclean : (uGet env s a).err = Err.none) :
+    ∃ r : UReg α,
+      step env desc s (.uScale dst a e) = ({ s with us := St.setL s.us dst r }, "ok " ++ showU env r) ∧
+      r.err = Err.none :=
+  ⟨_, step_uScale env desc s dst a e, (uScaleRes_err env s a e).trans hclean⟩
+
+theorem scalar_error_is_dropped_b (s : St α) (dst a e : Nat) (hclean : (bGet s a).err = Err.none) :
+    ∃ r : BReg α,
+      step env desc s (.bScale dst a e) = ({ s with bs := St.setL s.bs dst r }, "ok " ++ showB env r) ∧
+      r.err = Err.none :=
+  ⟨_, step_bScale env desc s dst a e, (bScaleRes_err env s a e).trans hclean⟩
+
+/-- A foreign argument overrides the receiver's error kind: the result is `InputIncompatible` whatever
+    error the receiver carried (this is why the element theorems exclude foreign operands). -/
+theorem foreign_overrides_kind (s : St α) (dst : Nat) (op : String) (a b : Nat)
+    (hfb : (eGet env s b).foreign = true) :
+    ∃ r : EReg α,
+      step env desc s (.eBin dst op a b) = ({ s with es := St.setL s.es dst r }, "ok " ++ showE env r) ∧
+      r.err = Err.kind Kind.inputIncompatible := by
+  refine ⟨_, step_eBin env desc s dst op a b, ?_⟩
+  unfold eBinRes
+  by_cases hop : (op == "times") = true
+  · simp [hop, eProdFn, hfb]
+  · simp [hop, eInPlace, eCheck, hfb]
+
+/-! ### non-vacuity and sanity (GF(5), store `sErr`: e0 clean, e1 erroneous (InputValue), e2 foreign;
+    p0/q0 clean, p1/q1 erroneous (ArithmeticIncompat)) -/
+
+example := sticky_eBin env5 (.prime 5) sErr 5 "plus" 1 0 (fun h => by decide) (by decide) (.inl (by decide))
+example := sticky_eBin env5 (.prime 5) sErr 5 "times" 0 1 (fun h => by decide) (by decide) (.inr (by decide))
+example := sticky_eUn env5 (.prime 5) sErr 5 "neg" 1 (by decide)
+example := sticky_ePow env5 (.prime 5) sErr 5 1 3 (by decide)
+example := sticky_eIn env5 (.prime 5) sErr "mult" 0 1 (fun h => by decide) (by decide) (.inr (by decide))
+example := sticky_eProd env5 (.prime 5) sErr 0 0 1 (by decide) (by decide) (.inr (by decide))
+example := eProd_receiver_stays_erroneous env5 (.prime 5) sErr 1 0 0 (by decide)
+example := sticky_uBin env5 (.prime 5) sErr 5 "times" 0 1 (.inr (by decide))
+example := sticky_uUn env5 (.prime 5) sErr 5 "normalize" 1 (.inr (.inr rfl))
+example := sticky_uPow env5 (.prime 5) sErr 5 1 2 (by decide)
+example := sticky_uIn env5 (.prime 5) sErr "add" 0 1 (.inr (by decide))
+example := sticky_bBin env5 (.prime 5) sErr 5 "minus" 1 0 (.inl (by decide))
+example := sticky_bPow env5 (.prime 5) sErr 5 1 2 (by decide)
+example := sticky_bIn env5 (.prime 5) sErr "mult" 0 1 (.inr (by decide))
+example := foreign_overrides_kind env5 (.prime 5) sErr 5 "plus" 1 2 (by decide)
+example : (Op.eBin 5 "minus" 0 1).propagatesE env5 sErr := by unfold Op.propagatesE; decide
+example : (Op.uUn 5 "neg" 1).propagatesU env5 sErr := ⟨.inr (.inl rfl), by decide⟩
+example : (Op.bScale 5 1 0).propagatesB sErr := by unfold Op.propagatesB; decide
+example : (Op.eProd 0 0 1).stickyE env5 sErr := by unfold Op.stickyE; decide
+example : (Op.uIn "mult" 0 1).stickyU env5 sErr := by unfold Op.stickyU; decide
+example : (Op.bUn 5 "copy" 1).stickyB sErr := ⟨.inl rfl, by decide⟩
+example : TaintedE sErr 1 := ⟨_, rfl, rfl⟩
+example : TaintedU sErr 1 := ⟨_, rfl, rfl⟩
+example : TaintedB sErr 1 := ⟨_, rfl, rfl⟩
+/-- a history in which e1 is negated in place, multiplied in place, used as operand and finally overwritten
+    by a propagating `Plus` satisfies `SafeE` -/
+example : SafeE env5 (.prime 5) 1 sErr [.eSetNeg 1, .eIn "mult" 1 0, .eBin 3 "plus" 0 1, .eBin 1 "plus" 0 1] := by
+  simp only [SafeE, Op.writesE, Op.inPlace, Op.propagatesE]
+  decide
+
+/-- sanity: observable replies. The erroneous argument is returned; `Lt` of an erroneous polynomial is clean;
+    an erroneous scalar leaves no trace in `Scale`. -/
+example : (step env5 (.prime 5) sErr (.eBin 5 "plus" 0 1)).2 = "ok !InputValue" := by decide
+example : (step env5 (.prime 5) sErr (.eBin 5 "plus" 1 2)).2 = "ok !InputIncompatible" := by decide
+example : (step env5 (.prime 5) sErr (.uUn 5 "neg" 1)).2 = "ok !ArithmeticIncompat" := by decide
+example : (uGet env5 (step env5 (.prime 5) sErr (.uUn 5 "lt" 1)).1 5).err = Err.none := by decide
+example : (step env5 (.prime 5) sErr (.bUn 5 "lt" 1)).2 = "ok 0#" := by decide
+example : (uGet env5 (step env5 (.prime 5) sErr (.uScale 5 0 1)).1 5).err = Err.none := by decide
+example : (eGet env5 (step env5 (.prime 5) sErr (.uLc 5 1)).1 5).err = Err.none := by decide
 
 end Algobra.C17
